@@ -465,6 +465,28 @@ def differential(res, prop, sub, cases, to_coq, requires, mismatch_fn, model_fn,
     res.obligation(okc, "model evaluation (coqc cases): " + clog[-1500:])
     failing_idx = {i for (i, _) in failing}
     pure_mismatch = [i for i in bad if i not in failing_idx]
+    if pure_mismatch and confirm and len(pure_mismatch) <= 8 and not os.environ.get("VERIF_NO_CONFIRM"):
+        # a disagreement is only reported when it reproduces with the case run ALONE (scenarios with deadlines can
+        # miss them in a parallel batch on a busy machine); a deterministic disagreement reproduces trivially
+        still = []
+        for i in pure_mismatch:
+            again = True
+            for k in range(2):
+                o2, _ = run_harness(sub, [hcases[i]], prop, tag="confirm_mm")
+                if o2 is None or len(o2) != 1:
+                    break
+                rows2 = canon(cases[i], o2[0]["rows"]) if canon else o2[0]["rows"]
+                ok2, bad2, _ = run_coq_cases(prop, requires, mismatch_fn, [(i, to_coq(cases[i]), cobs(rows2))], shards=1, tag="confirm_mm")
+                if ok2 and not bad2 and not oracle(cases[i], o2[0]):
+                    again = False
+                    break
+                obs[i] = o2[0]
+            if again:
+                still.append(i)
+            else:
+                res.notes.append("model/implementation disagreement not reproduced with the case run alone (machine load?), not reported: %s" % json.dumps(cases[i])[:300])
+                res.count("mismatch-not-reproduced-alone")
+        pure_mismatch = still
     res.obligation(not pure_mismatch, "model/implementation correspondence on %d cases (mismatches outside oracle failures: %s)" % (len(cases), pure_mismatch[:10]))
     res.extra["traces_validated_against_impl"] = res.extra.get("traces_validated_against_impl", 0) + len(cases) - len(bad)
     if not okc:
